@@ -150,7 +150,7 @@ StrArgs == << <<>>, <<97>>, <<97, 98>>, <<226, 130, 172>>, <<97, 98, 99, 100, 10
 \* item contents offered to FlexVec::push / assign: contents of the trees that fit a generous region
 ItemContents(e) ==
   IF IsSized(e) THEN ElemArgs(e)
-  ELSE LET tv == TV(e, MinSize(e) + 2 * Align(e) + 2)
+  ELSE LET tv == TV(e, MinSize(e) + 4 * Align(e) + 4)
            n == Len(tv)  m == MinI(n, AssignMax)
            \* m contents spread evenly over the list (first and last included: the smallest and a large one)
            idx(j) == IF m = 1 THEN 1 ELSE 1 + ((j - 1) * (n - 1)) \div (m - 1)
